@@ -12,11 +12,27 @@ DURS = ["0", "1", "0.001", "123.456", "5.5", "59.999", "0.0005", "1234567.891", 
         "1e3", ".5", "5.", "18446744073709551615", "18446744073709551616", "1.2.3", "999999999999", "1e-3", "+1.5", "0.0000000001"]
 GOODDURS = ["0", "1", "0.001", "123.456", "5.5", "59.999", "240", "1234567.891", "0.5", "3599.999"]
 TAGKEYS = ["Artist", "Album", "Title", "Genre", "Track", "Disc", "Date", "MUSICBRAINZ_ALBUMID", "x-custom", "AlbumArtist", "Performer"]
-TAGKEYS_ODD = ["artist", "ARTIST", "title", "X_Y", "a-b"]
+ALL_TAGS = ["Artist", "ArtistSort", "Album", "AlbumSort", "AlbumArtist", "AlbumArtistSort", "Title", "Track", "Name", "Genre", "Date", "OriginalDate", "Composer", "ComposerSort",
+            "Performer", "Conductor", "Work", "Ensemble", "Movement", "MovementNumber", "Location", "Grouping", "Comment", "Disc", "Label", "MUSICBRAINZ_ARTISTID", "MUSICBRAINZ_ALBUMID",
+            "MUSICBRAINZ_ALBUMARTISTID", "MUSICBRAINZ_TRACKID", "MUSICBRAINZ_RELEASETRACKID", "MUSICBRAINZ_WORKID"]
+TAGKEYS += ALL_TAGS
+# known names in other letter cases (the library documents case-insensitive parsing: values must land under the same tag)
+TAGKEYS_ODD = ["artist", "ARTIST", "title", "X_Y", "a-b"] + [t.lower() for t in ALL_TAGS] + [t.upper() for t in ALL_TAGS] + [t.swapcase() for t in ALL_TAGS[::3]]
 TEXT = ["", "x", "Foo Bar", "été", "a=b=c", "OK", "ACK [5@0] {} x", "binary: 3", "list_OK", "a: b", "100%", "  lead", "trail  ", "x" * 300]
 TS = ["2020-06-12T17:53:00Z", "2021-01-01T00:00:00+02:00", "1970-01-01T00:00:00Z"]
 TS_ODD = ["", "yesterday", "2020-13-45T99:99:99Z", "2020-06-12"]
 URLS = ["a.flac", "dir/b c.mp3", "é.ogg", "http://x/y?z=1", "x"]
+
+
+# long values with a multi-byte character sitting across a power-of-two byte offset (error paths that shorten / copy values)
+LONGS = ["x" * k + "\u00e9" + "z" * 5 for k in (62, 63, 126, 127, 254, 255, 256, 510, 511, 1022, 1023, 4094, 4095)] + ["\u4e2d" * 100, "\U0001f3b5" * 70]
+NUMS += LONGS[4:8]
+DURS += LONGS[4:8]
+TEXT += LONGS[3:9]
+TS_ODD += LONGS[4:7]
+RANGES_GOOD = ["1.5-3", "0-", "10.000-20.250", "0-0", "5-1", "10.5-0", "3-2.999"]     # a reversed range is still two valid times
+RANGES_ODD = ["-", "1", "a-b", "1-2-3", "-5", "1--2", "", "5-1e400", "nan-1", "1e400-", "-0-1"] + LONGS[4:6]
+ENUM_ODD = LONGS[4:8]
 
 
 def b(s):
@@ -35,7 +51,7 @@ def song_attrs(rng, good, queue):
     if rng.random() < 0.4:
         attrs.append(kv("Time", pick(["0", "123", "240"], DURS)))
     if rng.random() < 0.3:
-        attrs.append(kv("Range", pick(["1.5-3", "0-", "10.000-20.250", "0-0"], ["-", "1", "a-b", "1-2-3", "-5", "1--2", "", "5-1e400", "nan-1"])))
+        attrs.append(kv("Range", pick(RANGES_GOOD, RANGES_GOOD + RANGES_ODD)))
     if rng.random() < 0.4:
         attrs.append(kv("Format", rng.choice(["44100:16:2", "48000:f:6", "*:*:*", ""])))
     if rng.random() < 0.5:
@@ -48,7 +64,7 @@ def song_attrs(rng, good, queue):
         if rng.random() < 0.4:
             attrs.append(kv("Prio", pick(["0", "1", "255", "10"], NUMS)))
     for _ in range(rng.randint(0, 4)):
-        k = rng.choice(TAGKEYS) if good or rng.random() < 0.8 else rng.choice(TAGKEYS_ODD)
+        k = rng.choice(TAGKEYS) if rng.random() < 0.75 else rng.choice(TAGKEYS_ODD)
         attrs.append(kv(k, rng.choice(TEXT)))
     rng.shuffle(attrs)
     if not good and rng.random() < 0.15 and attrs:
@@ -86,10 +102,10 @@ def status(rng, good):
     opt = lambda p: rng.random() < p
     if opt(0.8):
         f.append(kv("volume", pick(["0", "50", "100", "101", "255"], NUMS)))
-    f.append(kv("repeat", pick(["0", "1"], ["2", "", "true", "01"])))
+    f.append(kv("repeat", pick(["0", "1"], ["2", "", "true", "01"] + ENUM_ODD)))
     f.append(kv("random", pick(["0", "1"], ["2", "", "-1"])))
     if opt(0.8):
-        f.append(kv("single", pick(["0", "1", "oneshot"], ["2", "", "Oneshot", "on"])))
+        f.append(kv("single", pick(["0", "1", "oneshot"], ["2", "", "Oneshot", "on"] + ENUM_ODD)))
     f.append(kv("consume", pick(["0", "1"], ["oneshot", "2", ""])))
     if opt(0.7):
         f.append(kv("partition", rng.choice(["default", "x y", ""])))
@@ -97,7 +113,7 @@ def status(rng, good):
         f.append(kv("playlist", pick(["0", "5", "4294967295"], NUMS)))
     if opt(0.8):
         f.append(kv("playlistlength", pick(GOODNUMS, NUMS)))
-    f.append(kv("state", pick(["play", "stop", "pause"], ["playing", "", "PLAY", "paused"])))
+    f.append(kv("state", pick(["play", "stop", "pause"], ["playing", "", "PLAY", "paused"] + ENUM_ODD)))
     if opt(0.5):
         f.append(kv("song", pick(GOODNUMS, NUMS)))
         if good or opt(0.9):
@@ -203,7 +219,7 @@ def pairs(rng, good, k1, k2, v1, v2):
 
 
 STICKV = ["name=value", "a=b=c", "rating=5", "=", "x=", "=y", "k=é"]
-STICKV_ODD = ["novalue", "", "x"]
+STICKV_ODD = ["novalue", "", "x"] + LONGS[4:7]
 
 
 def offshape(rng):
@@ -264,7 +280,7 @@ def shaped(rng, cmd, good):
     elif cmd == "ReadChannelMessages":
         f = pairs(rng, good, "channel", "message", ["c1", "c 2"], TEXT)
     elif cmd == "GetEnabledTagTypes":
-        f = [kv("tagtype", rng.choice(TAGKEYS + (TAGKEYS_ODD if not good else []) + ([] if good else ["", "a b", "é", "1x"]))) for _ in range(rng.randint(0, 5))]
+        f = [kv("tagtype", rng.choice(TAGKEYS + (TAGKEYS_ODD if not good else []) + ([] if good else ["", "a b", "é", "1x"] + ENUM_ODD))) for _ in range(rng.randint(0, 5))]
     elif cmd in ("Update", "Rescan"):
         f = [kv("updating_db", rng.choice(GOODNUMS if good else NUMS))]
         if not good and rng.random() < 0.3:
@@ -274,7 +290,7 @@ def shaped(rng, cmd, good):
         if not good and rng.random() < 0.3:
             f = rng.choice([[], [kv("id", "1")]])
     elif cmd == "ReplayGainStatus":
-        f = [kv("replay_gain_mode", rng.choice(["off", "track", "album", "auto"] if good else ["off", "Off", "", "both"]))]
+        f = [kv("replay_gain_mode", rng.choice(["off", "track", "album", "auto"] if good else ["off", "Off", "", "both"] + ENUM_ODD))]
     elif cmd in ("AlbumArt", "AlbumArtEmbedded"):
         f = []
         if rng.random() < 0.85:
